@@ -64,6 +64,7 @@ func (e *Engine) verifyFunction(fc *FuncContract) *FnResult {
 		return res
 	}
 	fr := c.pushFrame(s, fn, args, binds)
+	c.collectWitness(s, fn, args)
 	env := c.fnEnv(s, fn, fr, args)
 	for _, rq := range fc.Requires {
 		g := env.evalBool(rq.Expr)
@@ -322,6 +323,46 @@ func (c *Ctx) checkTraces(s *State, env *Env, fc *FuncContract, trace []Event, l
 			c.oblige(s, "trace", name, Not(cond), "", "trace rule `"+tr.Src+"` fails on a path: "+detail, props)
 		} else {
 			c.oblige(s, "trace", name, True, "", "trace rule `"+tr.Src+"`", props)
+		}
+	}
+}
+
+// collectWitness lists the terms that describe the function's inputs (for replay of models).
+func (c *Ctx) collectWitness(s *State, fn *ssa.Function, args []Value) {
+	add := func(name string, t Term) { c.witness = append(c.witness, WitnessTerm{name, t}) }
+	var rec func(name string, v Value, t types.Type, depth int)
+	rec = func(name string, v Value, t types.Type, depth int) {
+		switch x := v.(type) {
+		case Sc:
+			if x.T.Sort == SInt || x.T.Sort == SBool || x.T.Sort.IsBV() {
+				add(name, x.T)
+			}
+			if x.T.Sort == SStr {
+				add(name+"#strlen", StrLen(c.d, x.T))
+			}
+		case Sl:
+			add(name+"#len", x.Len)
+			add(name+"#cap", x.Cap)
+			add(name+"#nil", Eq(x.Arr, IntLit(0)))
+			if st, ok := t.Underlying().(*types.Slice); ok && scalarSort(st.Elem()) == SBV8 {
+				h := c.getHeap(s, "Elem|uint8", ArrSort(SInt, ArrSort(SInt, SBV8)))
+				for i := 0; i < 40; i++ {
+					add(fmt.Sprintf("%s[%d]", name, i), Select(Select(h, x.Arr), Add(x.Off, IntLit(int64(i)))))
+				}
+			}
+		case If:
+			add(name+"#typ", x.Typ)
+		case St:
+			if st, ok := isStructType(x.Typ); ok && depth < 2 {
+				for i, f := range x.F {
+					rec(name+"."+st.Field(i).Name(), f, st.Field(i).Type(), depth+1)
+				}
+			}
+		}
+	}
+	for i, p := range fn.Params {
+		if i < len(args) {
+			rec(p.Name(), args[i], p.Type(), 0)
 		}
 	}
 }
